@@ -36,10 +36,10 @@ Definition at_end (s : state) : Prop :=
 (** control states that end in the unconditional boundary snapshot *)
 Definition pendingb (p : pcT) : bool :=
   match p with
-  | PReleased Truncate _ _ | PCkpted Truncate _ _ _ | PMid Truncate _ _ _ _
-  | PUnlocked Truncate _ _ _ _ | PBumped Truncate _ _ _ _ | PBoundary | PBoundLocked => true
+  | PBoundary | PBoundLocked => true
   | _ => false
   end.
+Definition truncb (m : mode) : bool := match m with Truncate => true | _ => false end.
 (** PASSIVE: between the sealed copy and the rollback of the barrier *)
 Definition sealedb (p : pcT) : bool :=
   match p with
@@ -50,12 +50,9 @@ Definition lockedb (p : pcT) : bool :=
   match p with PLocked _ => true | _ => false end.
 Definition relb (p : pcT) : bool :=
   match p with PReleased _ _ _ | PCkpted _ _ _ _ => true | _ => false end.
-Definition post_truncb (p : pcT) : bool :=
-  match p with
-  | PCkpted Truncate _ _ _ | PMid Truncate _ _ _ _ | PUnlocked Truncate _ _ _ _
-  | PBumped Truncate _ _ _ _ => true
-  | _ => false
-  end.
+(** (a TRUNCATE PRAGMA may come back busy without resetting the WAL: nothing is known about
+    the generation after it) *)
+Definition post_truncb (p : pcT) : bool := false.
 Definition hg_of (p : pcT) : option nat :=
   match p with
   | PHdr _ hg | PCopied _ hg | PLocked hg | PSealed hg | PReleased _ hg _
@@ -71,17 +68,18 @@ Definition rb_of (p : pcT) : bool :=
     for the boundary snapshot *)
 Definition frfreeb (p : pcT) : bool :=
   match p with
-  | PReleased m _ _ | PCkpted m _ _ _ => frb m
-  | PMid m _ _ _ rb | PUnlocked m _ _ _ rb | PBumped m _ _ _ rb => frb m && rb
+  | PReleased m _ _ | PCkpted m _ _ _ => frb m || truncb m
+  | PMid m _ _ _ rb | PUnlocked m _ _ _ rb => (frb m && rb) || truncb m
+  | PBumped m _ _ _ rb => frb m && rb
   | _ => false
   end.
 (** where a lost cursor is harmless for FULL/RESTART *)
 Definition lost_okb (p : pcT) (g : nat) : bool :=
   match p with
-  | PReleased m hg _ | PCkpted m hg _ _ => frb m && (hg <? g)
-  | PMid m hg _ _ rb => frb m && (hg <? g) && (rb || recheck)
+  | PReleased m hg _ | PCkpted m hg _ _ => (frb m || truncb m) && (hg <? g)
+  | PMid m hg _ _ rb => (frb m || truncb m) && (hg <? g) && (rb || recheck || truncb m)
   | PPost _ hg _ _ => recheck && (hg <? g)
-  | PUnlocked m hg _ _ rb | PBumped m hg _ _ rb => frb m && (hg <? g) && rb
+  | PUnlocked m hg _ _ rb | PBumped m hg _ _ rb => (frb m || truncb m) && (hg <? g) && (rb || truncb m)
   | _ => false
   end.
 (** the copy of commit 6edd82b is due ([Machine.post_pending] with [postcopy = true]) *)
@@ -324,8 +322,8 @@ Proof.
   destruct p as [| | | | |m ? ?|m ? ? ?|m ? ? ? rb|m ? ? ?|m ? ? ? rb|m ? ? ? rb| | | |];
     cbn -[Nat.ltb] in *; rewrite ?andb_false_r in Hd; try discriminate;
     specialize (Hh _ eq_refl); apply Nat.ltb_lt in Hh; rewrite Hh;
-    rewrite ?andb_true_r; unfold needs_post in *; cbn in *;
-    destruct (frb m); try destruct rb; destruct recheck; cbn in *; try discriminate; reflexivity.
+    unfold needs_post in *;
+    try destruct m; try destruct rb; destruct recheck; cbn in *; try discriminate; reflexivity.
 Qed.
 
 Lemma lost_ok_hg p g : lost_okb p g = true -> exists hg, hg_of p = Some hg /\ hg < g.
@@ -662,10 +660,11 @@ Proof.
   rewrite Epc in *.
   destruct (T hg eq_refl) as [T1 _].
   assert (Hpend : pendingb (PMid m hg pre wn false) = false) by (destruct m; try discriminate; reflexivity).
+  assert (Ht : truncb m = false) by (destruct m; try discriminate; reflexivity).
   assert (Hlost : cur data s = Lost -> verify s = VSnap \/ (recheck = true /\ hg < gen data s)).
   { intros A. destruct (L A) as [B|[B|[B|B]]]; [|congruence|unfold freshlostb in B; rewrite Epc in B; discriminate|].
     - left. unfold Machine.verify. rewrite B. reflexivity.
-    - right. cbn -[Nat.ltb] in B. rewrite Hf in B. cbn -[Nat.ltb] in B.
+    - right. cbn -[Nat.ltb] in B. rewrite Hf, Ht in B. cbn -[Nat.ltb] in B. rewrite orb_false_r in B.
       apply andb_prop in B. destruct B as [B1 B2]. apply Nat.ltb_lt in B1. auto. }
   assert (Htoend : toend data s = true) by (unfold toend; rewrite Epc; cbn; apply orb_true_r).
   assert (Hend : (recheck = false \/ gen data s = hg) -> at_end (set_pc data s1 (PPost m hg pre wn))).
@@ -781,6 +780,21 @@ Proof.
   - destruct (j =? length (txs data s)) eqn:Ej; [|discriminate]. apply Nat.eqb_eq in Ej.
     inversion E; subst s'. clear E.
     constructor; prep; rewrite ?Em in *; fin2.
+    (* whatever was committed since the copy is checkpointed and truncated unseen: the header
+       comparison after the bump finds another generation *)
+    intros _. right. right. right. apply Nat.leb_le. destruct (T _ eq_refl) as [T1 _]. exact T1.
+Qed.
+
+(** TRUNCATE that comes back busy: a partial backfill, no reset *)
+Lemma safe_LsCkptBusy s j sz s' : inv s -> safe s -> step s (LsCkptBusy data j sz) = Some s' -> safe s'.
+Proof.
+  intros H Hs E. cbn in E. pose proof Hs as [K S W L T O N P F Q G Z].
+  destruct (pc data s) as [| | | | |m0 hg0 pre0| | | | | | | | |] eqn:Epc; try discriminate.
+  destruct m0; try discriminate.
+  destruct (ls_mark data s) eqn:Em; [discriminate|].
+  destruct ((backfilled data s <=? j) && (j <=? length (txs data s))); [|discriminate].
+  inversion E; subst s'. clear E.
+  constructor; prep; rewrite ?Em in *; fin2.
 Qed.
 
 Lemma safe_LsReacquire s s' : inv s -> safe s -> step s (LsReacquire data) = Some s' -> safe s'.
@@ -817,7 +831,8 @@ Proof.
     + right. right. right. right. unfold postpendb, post_pending, needs_post. rewrite Hf. reflexivity.
   - intros A. destruct (L A) as [B|[B|[B|B]]]; [auto|congruence|unfold freshlostb in B; rewrite Epc in B; discriminate|].
     right. right. right. cbn -[Nat.ltb] in B. rewrite Hf in B. cbn -[Nat.ltb] in B.
-    rewrite B. apply Nat.ltb_lt in B. cbn. destruct (Hlost B) as [C|C]; rewrite C; [reflexivity|apply orb_true_r].
+    rewrite B. apply Nat.ltb_lt in B. cbn. destruct (Hlost B) as [C|C]; rewrite C; [reflexivity|].
+    rewrite orb_true_r. reflexivity.
   - intros hg' A. inversion A; subst hg'. split; [exact T1|]. split; [destruct m; discriminate|exact Hrb].
   - intros A. specialize (P A). discriminate.
 Qed.
@@ -835,6 +850,8 @@ Proof.
   - eapply safe_mid_fr; eauto.
   - unfold mid_restarted. cbn [frb]. rewrite andb_false_r. cbn [andb].
     constructor; prep; fin2.
+    intros A. destruct (L A) as [B|[B|[B|B]]]; auto; try discriminate.
+    right. right. right. rewrite B. rewrite orb_true_r. reflexivity.
 Qed.
 
 Lemma safe_unlock_post s m hg pre wn :
@@ -885,18 +902,22 @@ Proof.
     + apply negb_false_iff in En. subst rb0. constructor; prep; fin2.
     + apply negb_false_iff in En. subst rb0. constructor; prep; fin2.
     + constructor; prep; fin2.
+      intros A. destruct (L A) as [B|[B|[B|B]]]; auto; try discriminate.
+      right. right. right. apply andb_prop in B. destruct B as [B _]. rewrite B.
+      rewrite orb_true_r. reflexivity.
   - inversion E; subst s'. clear E. apply safe_unlock_post; assumption.
 Qed.
 
+(** (the bump has just committed a frame: the WAL is not completely backfilled) *)
 Lemma safe_bump_pc s1 m hg pre wn rb :
   safe s1 -> pc data s1 = PUnlocked m hg pre wn rb ->
+  backfilled data s1 < length (txs data s1) ->
   safe (set_pc data s1 (PBumped m hg pre wn rb)).
 Proof.
-  intros Hs Epc. pose proof Hs as [K S W L T O N P F Q G Z]. rewrite Epc in *.
+  intros Hs Epc Hbf. pose proof Hs as [K S W L T O N P F Q G Z]. rewrite Epc in *.
   constructor; cbn -[Nat.ltb] in *; try assumption; triv.
   all: try solve [intros A; specialize (P A); discriminate].
-  - intros A B C. destruct (K A B C) as [D|[D|[D|[D|D]]]]; auto 6.
-    unfold weakb in D. rewrite Epc in D. cbn in D. discriminate.
+  - intros A B C. lia.
   - intros A. destruct (L A) as [D|[D|[D|D]]]; auto 6.
     unfold freshlostb in D. rewrite Epc in D. cbn in D. discriminate.
 Qed.
@@ -910,8 +931,8 @@ Proof.
   inversion E; subst s'. clear E.
   assert (Hs1 : safe s1).
   { apply (safe_commit_same s t r s1 H Hs); [|exact Ed]. intros _. right. rewrite Epc. reflexivity. }
-  destruct (do_commit_facts _ _ _ _ H Hs Ed) as [_ [_ [_ [_ [Hpc _]]]]].
-  apply safe_bump_pc; [exact Hs1|congruence].
+  destruct (do_commit_facts _ _ _ _ H Hs Ed) as [_ [_ [Hbf [_ [Hpc _]]]]].
+  apply safe_bump_pc; [exact Hs1|congruence|exact Hbf].
 Qed.
 
 Lemma safe_cmp_plain s m hg pre wn rb p :
@@ -943,26 +964,27 @@ Proof.
   destruct (T hg eq_refl) as [T1 [T2 T3]].
   assert (Hfree : freeb (PBumped m hg pre wn rb) = true -> frb m = true /\ rb = true).
   { unfold freeb. cbn. rewrite andb_false_r, orb_false_r. intros A. apply andb_prop in A. exact A. }
-  assert (Hlok : forall g, lost_okb (PBumped m hg pre wn rb) g = true -> frb m = true /\ rb = true /\ hg < g).
+  assert (Hlok : forall g, lost_okb (PBumped m hg pre wn rb) g = true ->
+                 (truncb m = true \/ (frb m = true /\ rb = true)) /\ hg < g).
   { intros g A. cbn -[Nat.ltb] in A. apply andb_prop in A. destruct A as [A A3].
-    apply andb_prop in A. destruct A as [A1 A2]. apply Nat.ltb_lt in A2. auto. }
+    apply andb_prop in A. destruct A as [A1 A2]. apply Nat.ltb_lt in A2. split; [|exact A2].
+    destruct (truncb m) eqn:Et; [left; reflexivity|right].
+    rewrite orb_false_r in A1, A3. auto. }
   unfold ck_decide in E.
   destruct (hg =? gen data s) eqn:Eg.
   - (* header unchanged *)
     apply Nat.eqb_eq in Eg. inversion E; subst s'. clear E.
     eapply safe_cmp_plain; eauto.
     + intros A B C. destruct (K A B C) as [D|[D|[D|[D|D]]]];
-        [exact D| |specialize (P D); discriminate|
+        [exact D|discriminate D|specialize (P D); discriminate|
          |unfold weakb in D; rewrite Epc in D; cbn in D; discriminate].
-      * exfalso. cbn in D. destruct m; try discriminate. specialize (T2 eq_refl). lia.
-      * exfalso. destruct (Hfree D) as [_ D2]. specialize (T3 D2). lia.
+      exfalso. destruct (Hfree D) as [_ D2]. specialize (T3 D2). lia.
     + intros A. destruct (L A) as [D|[D|[D|D]]];
-        [exact D| |unfold freshlostb in D; rewrite Epc in D; cbn in D; discriminate|].
-      * exfalso. cbn in D. destruct m; try discriminate. specialize (T2 eq_refl). lia.
-      * exfalso. destruct (Hlok _ D) as [_ [_ D3]]. lia.
-  - assert (Hplain : rb = false \/ frb m = false ->
+        [exact D|discriminate D|unfold freshlostb in D; rewrite Epc in D; cbn in D; discriminate|].
+      exfalso. destruct (Hlok _ D) as [_ D3]. lia.
+  - assert (Hplain : truncb m = false -> rb = false \/ frb m = false ->
                      safe (set_pc data s PRecopy) \/ pendingb (PBumped m hg pre wn rb) = true).
-    { intros Hc. destruct (pendingb (PBumped m hg pre wn rb)) eqn:Ep; [auto|]. left.
+    { intros Hnt Hc. destruct (pendingb (PBumped m hg pre wn rb)) eqn:Ep; [auto|]. left.
       eapply safe_cmp_plain; eauto.
       - intros A B C. destruct (K A B C) as [D|[D|[D|[D|D]]]];
           [exact D|discriminate|specialize (P D); discriminate|
@@ -970,16 +992,16 @@ Proof.
         exfalso. destruct (Hfree D) as [D1 D2]. destruct Hc; congruence.
       - intros A. destruct (L A) as [D|[D|[D|D]]];
           [exact D|discriminate|unfold freshlostb in D; rewrite Epc in D; cbn in D; discriminate|].
-        exfalso. destruct (Hlok _ D) as [D1 [D2 _]]. destruct Hc; congruence. }
+        exfalso. destruct (Hlok _ D) as [[Dt|[D1 D2]] _]; [congruence|]. destruct Hc; congruence. }
     destruct m.
-    + inversion E; subst s'. clear E. destruct Hplain as [A|A]; [right; reflexivity|exact A|discriminate].
+    + inversion E; subst s'. clear E. destruct Hplain as [A|A]; [reflexivity|right; reflexivity|exact A|discriminate].
     + destruct (negb rb && (wn <=? pre)) eqn:Ec.
       * apply andb_prop in Ec. destruct Ec as [Erb _]. apply negb_true_iff in Erb.
-        inversion E; subst s'. clear E. destruct Hplain as [A|A]; [left; exact Erb|exact A|discriminate].
+        inversion E; subst s'. clear E. destruct Hplain as [A|A]; [reflexivity|left; exact Erb|exact A|discriminate].
       * inversion E; subst s'. clear E. eapply safe_cmp_boundary; eauto.
     + destruct (negb rb && (wn <=? pre)) eqn:Ec.
       * apply andb_prop in Ec. destruct Ec as [Erb _]. apply negb_true_iff in Erb.
-        inversion E; subst s'. clear E. destruct Hplain as [A|A]; [left; exact Erb|exact A|discriminate].
+        inversion E; subst s'. clear E. destruct Hplain as [A|A]; [reflexivity|left; exact Erb|exact A|discriminate].
       * inversion E; subst s'. clear E. eapply safe_cmp_boundary; eauto.
     + inversion E; subst s'. clear E. eapply safe_cmp_boundary; eauto.
 Qed.
@@ -1127,6 +1149,7 @@ Proof.
   - eapply safe_LsSnapRead; eauto.
   - cbn in Hwin. discriminate.
   - eapply safe_LsPostSync; eauto.
+  - eapply safe_LsCkptBusy; eauto.
   - cbn in Hwin. discriminate.
 Qed.
 
